@@ -28,7 +28,9 @@ def specs(run):
     quick = run.tier == 'quick'
     S = [('numpy', (5, 70, 9), 2), ('numpy', (63, 10, 12), 0), ('numpy', (64, 64, 8), 1), ('numpy', (65, 66, 5), 3), ('numpy', (9, 62, 7), 1),
          ('numpy', (127, 66, 5), 0), ('numpy', (2, 2, 2), 4), ('numpy', (68, 5, 1030), 1), ('segy', (6, 61, 9), 0), ('irregular', (9, 7, 12), 0),
-         ('numpy', (128, 3, 5), 2), ('numpy', (61, 61, 4), 1), ('segy-dup', (6, 9, 8), 0)]
+         ('numpy', (128, 3, 5), 2), ('numpy', (61, 61, 4), 1), ('segy-dup', (6, 9, 8), 0),
+         # separately stored arrays that happen to hold the same values (two given arrays equal; exhaustive detection: many all-zero arrays)
+         ('numpy-equal', (7, 9, 6), 0), ('segy-exhaustive', (5, 6, 8), 0)]
     if not quick:
         S += [('numpy', (129, 65, 5), 1), ('numpy', (70, 129, 4), 0), ('numpy', (4, 4, 2100), 2), ('irregular', (66, 5, 9), 0), ('segy', (65, 5, 20), 0),
               ('numpy', (60, 124, 6), 1), ('numpy', (125, 59, 3), 0), ('numpy', (64, 128, 4), 1)]
@@ -46,6 +48,15 @@ def make(d, k, spec, seed):
             th[f] = (t * (j + 3) - 11 * j).astype(np.int32)
         writers.numpy_to_sgz(p, cube, 2, (4, 4, -1), ilines=10 + 3 * np.arange(shape[0]), xlines=-5 + 2 * np.arange(shape[1]),
                              samples=4.0 * np.arange(shape[2]), trace_headers=th)
+    elif route == 'numpy-equal':
+        t = np.arange(shape[0] * shape[1]).reshape(shape[0], shape[1]).astype(np.int32)
+        th = {segyio.TraceField.CDP_X: 3 * t + 1, segyio.TraceField.SourceX: 3 * t + 1, segyio.TraceField.CDP: 7 - t, segyio.TraceField.GroupX: 3 * t + 1}
+        writers.numpy_to_sgz(p, cube, 2, (4, 4, -1), ilines=10 + 3 * np.arange(shape[0]), xlines=-5 + 2 * np.arange(shape[1]),
+                             samples=4.0 * np.arange(shape[2]), trace_headers=th)
+    elif route == 'segy-exhaustive':
+        sgy = p + '.sgy'
+        inputs.write_segy(sgy, cube, 10 + 3 * np.arange(shape[0]), -5 + 2 * np.arange(shape[1]), 4.0 * np.arange(shape[2]))
+        writers.segy_to_sgz(sgy, p, 2, None, header_detection='exhaustive')
     elif route == 'segy-dup':      # default detection with duplicated header words (several words share one stored array)
         sgy = p + '.sgy'
         t = np.arange(shape[0] * shape[1]).reshape(shape[0], shape[1])
